@@ -9,7 +9,7 @@ from typing import TYPE_CHECKING
 # Local Imports
 from ..common.labels import FoVLabel
 from ..physics.constants import DEG2RAD
-from ..physics.maths import subtendedAngle
+from ..physics.maths import subtendedAngle, wrapAngleNegPiPi
 from ..physics.measurements import getAzimuth, getElevation
 
 if TYPE_CHECKING:
@@ -131,7 +131,8 @@ class RectangularFoV(FieldOfView):
         background_azimuth = getAzimuth(background_sez)
         background_elevation = getElevation(background_sez)
 
-        azimuth_angle = abs(pointing_azimuth - background_azimuth)
+        # [NOTE]: Azimuths are in [0, 2pi), so their difference must be wrapped across north
+        azimuth_angle = abs(wrapAngleNegPiPi(pointing_azimuth - background_azimuth))
         elevation_angle = abs(pointing_elevation - background_elevation)
         return (
             azimuth_angle <= self.azimuth_angle / 2 and elevation_angle <= self.elevation_angle / 2
